@@ -292,19 +292,21 @@ func (net *vcNet) heldProposals() []vcMsg {
 func (net *vcNet) heldBlocks() []string {
 	held := map[string]bool{}
 	for _, nn := range net.corr {
-		cs := net.nodes[nn].cs
+		n := net.nodes[nn]
+		cs := n.cs
+		// a node can serve the parts of the encoding (BlockID) it holds, not of another encoding of the same block
 		if cs.ProposalBlock != nil {
-			held[net.nameOfHash(cs.ProposalBlock.Hash())] = true
+			held[n.nameOfBlock(cs.ProposalBlock, cs.ProposalBlockParts)] = true
 		}
 		if cs.LockedBlock != nil {
-			held[net.nameOfHash(cs.LockedBlock.Hash())] = true
+			held[n.nameOfBlock(cs.LockedBlock, cs.LockedBlockParts)] = true
 		}
 		if cs.ValidBlock != nil {
-			held[net.nameOfHash(cs.ValidBlock.Hash())] = true
+			held[n.nameOfBlock(cs.ValidBlock, cs.ValidBlockParts)] = true
 		}
 		if cs.blockStore.Height() >= 1 {
-			if b := cs.blockStore.LoadBlock(1); b != nil {
-				held[net.nameOfHash(b.Hash())] = true
+			if bm := cs.blockStore.LoadBlockMeta(1); bm != nil {
+				held[net.nameOfBlockID(bm.BlockID)] = true
 			}
 		}
 	}
